@@ -196,6 +196,18 @@ func (b bset) has(c byte) bool { return b[c>>6]&(1<<(c&63)) != 0 }
 func (b *bset) add(c byte)     { b[c>>6] |= 1 << (c & 63) }
 func (b *bset) del(c byte)     { b[c>>6] &^= 1 << (c & 63) }
 func (b bset) empty() bool     { return b[0]|b[1]|b[2]|b[3] == 0 }
+
+// single: the set has exactly one element.
+func (b bset) single() (byte, bool) {
+	n, at := 0, 0
+	for c := 0; c < 256; c++ {
+		if b.has(byte(c)) {
+			n++
+			at = c
+		}
+	}
+	return byte(at), n == 1
+}
 func (b bset) union(o bset) bset {
 	return bset{b[0] | o[0], b[1] | o[1], b[2] | o[2], b[3] | o[3]}
 }
